@@ -1,21 +1,29 @@
 #!/usr/bin/env python3
-"""mkvar.py ID name expect-substring file  (stdin: OLD\n=====\nNEW)
-Writes /verif/variants/<ID>/<name>.patch: a single-edit variant of /repo (relative to the
-current working tree) that the check for <ID> must report with an obligation key containing
-<expect-substring>."""
+"""mkvar.py ID name expect-substring file  (stdin: OLD\n=====\nNEW[\n#####\n[@@ otherfile\n]OLD\n=====\nNEW]...)
+Writes /verif/variants/<ID>/<name>.patch: a small variant of /repo (relative to the current
+working tree) that the check for <ID> must report with an obligation key/description
+containing <expect-substring>."""
 import sys, difflib, os
 pid, name, expect, path = sys.argv[1:5]
-old, new = sys.stdin.read().split("\n=====\n")
-new = new.rstrip("\n")
-old = old.rstrip("\n")
-src = open(os.path.join("/repo", path)).read()
-if src.count(old) != 1:
-    sys.exit("OLD must occur exactly once, occurs %d" % src.count(old))
-dst = src.replace(old, new)
-diff = "".join(difflib.unified_diff(src.splitlines(True), dst.splitlines(True), "a/" + path, "b/" + path))
+blocks = sys.stdin.read().split("\n#####\n")
+files = {}
+cur = path
+for blk in blocks:
+    if blk.startswith("@@ "):
+        first, blk = blk.split("\n", 1)
+        cur = first[3:].strip()
+    old, new = blk.split("\n=====\n")
+    old = old.rstrip("\n"); new = new.rstrip("\n")
+    if cur not in files:
+        src = open(os.path.join("/repo", cur)).read()
+        files[cur] = [src, src]
+    if files[cur][1].count(old) != 1:
+        sys.exit("OLD must occur exactly once in %s, occurs %d" % (cur, files[cur][1].count(old)))
+    files[cur][1] = files[cur][1].replace(old, new)
 d = os.path.join("/verif/variants", pid)
 os.makedirs(d, exist_ok=True)
 with open(os.path.join(d, name + ".patch"), "w") as f:
     f.write("# expect: %s\n" % expect)
-    f.write(diff)
+    for p, (src, dst) in files.items():
+        f.write("".join(difflib.unified_diff(src.splitlines(True), dst.splitlines(True), "a/" + p, "b/" + p)))
 print("wrote", os.path.join(d, name + ".patch"))
